@@ -430,20 +430,24 @@ def _r3(ctx):
             return "TN" if e.id == tn_name else e.id
         return None
     got = to_nf(ts[0].value, atom=atom)
-    v = prog.func("pylife.materiallaws.woehlercurve:WoehlerCurve._validate")
-    wts = [s for s in walk_function(v.node) if isinstance(s, ast.Assign) and is_self_attr(s.targets[0], "_TS") and
-           any(is_self_attr(n, "_TN") for n in ast.walk(s.value))]
-    if len(wts) != 1:
-        raise AnalysisError("WoehlerCurve._validate: TS conversion not found")
+    from .c08 import scatter_table
+    from ..absint import term_to_ast
+    v, table, is_tn, is_ts = scatter_table(prog)
     k1 = -RF.sym("slope")
 
-    def watom(e):
-        if is_self_attr(e, "_TN"):
-            return "TN"
-        if isinstance(e, ast.Attribute) and e.attr == "k_1":
-            return k1
-        return None
-    want = to_nf(wts[0].value, atom=watom)
+    def named(t):
+        if is_tn(t):
+            return ("p", "TN")
+        if isinstance(t, tuple) and len(t) == 3 and t[0] == "attr" and t[2] == "k_1":
+            return ("p", "k_1")
+        if isinstance(t, tuple) and t and t[0] == "call" and t[1] in ("np.power", "np.float_power", "pow") and len(t[2]) == 2:
+            return ("op", "**", named(t[2][0]), named(t[2][1]))
+        return tuple(named(x) if isinstance(x, tuple) else x for x in t) if isinstance(t, tuple) else t
+    try:
+        want = to_nf(term_to_ast(named(table[(False, True)][1])),
+                     atom=lambda e: (k1 if e.id == "k_1" else e.id) if isinstance(e, ast.Name) else None)
+    except (NFUnsupported, ValueError) as e:
+        raise AnalysisError("WoehlerCurve._validate: TS conversion outside the fragment: %s" % e)
     if got == want:
         ctx.holds(f, ts[0], "TS = TN^(1/-slope) == accessor's TN^(1/k_1) with k_1 = -slope")
     else:
